@@ -211,6 +211,9 @@ def c_set_init(P):
     P.opaque_hooks[DC + "_reorder_parameters"] = reorder
     labels = models.SymSet()
     cls.fields["labels"] = labels
+    # what the bases are labelled with is arbitrary: a plain class that merely inherits from a dataclass carries the label too, without contributing fields
+    for i_, p_ in enumerate(parents):
+        p_.fields["labels"] = models.SymSet(items=[], parts=[sym_seq(P, f"parent{i_}_labels", lambda i, i_=i_: SStr(z3.Function(f"PARENT{i_}_LABEL", IntS, StrS)(zint(i))))])
     sets = []
     P.opaque_hooks["_griffe.mixins:SetMembersMixin.set_member"] = lambda P_, a, k: sets.append(a)
     P.opaque_hooks["new:Function"] = lambda P_, a, k: SObj("Function", {"name": a[0], "parameters": k.get("parameters"), "returns": k.get("returns"), "parent": k.get("parent")}, ident=P_.new_ident())
